@@ -249,4 +249,32 @@ NoPreloadPanic == PreloadOK
 NoGhostExt == \A b \in Blocks : ext[b] # "none" => b \in stored
 TypeOK == /\ tip \in index /\ pending \subseteq All /\ orphans \subseteq Blocks /\ status \subseteq Blocks
           /\ orphans \cap pending = {}
+
+-----------------------------------------------------------------------------
+(* Growth beyond C01 (DESIGN.md 3.7 item 7): progress of block import under fairness.                     *)
+(* Every pipeline action is the body of a thread's loop over a channel, so each gets weak fairness; the    *)
+(* environment (Mint / Seal / Deliver) gets none: it may stop at any time.                                 *)
+FairSpec == /\ Spec
+            /\ WF_vars(Receive) /\ WF_vars(Insert) /\ WF_vars(Broker) /\ WF_vars(\E l \in All : ReleaseLeader(l))
+            /\ WF_vars(Preload) /\ WF_vars(Verify) /\ WF_vars(VerifyDone)
+\* b and all its ancestors have been handed to the node
+Ready(b) == \A a \in ChainOf(b) \ {0} : a \in Range(order)
+\* no copy of b is on its way through the pipeline or waiting in the orphan pool
+Settled(b) == /\ \A i \in (rcvd + 1)..Len(order) : order[i] # b
+              /\ ~(svc.pc \in {"insert", "broker"} /\ svc.b = b)
+              /\ b \notin pending /\ b \notin orphans
+\* verified and attached / stored with its total difficulty only / marked invalid
+Judged(b) == Settled(b) /\ (b \in status \/ (b \in stored /\ ext[b] \in {"ok", "unv"}))
+\* the one exception the code has: a block that fails the NON-contextual checks is marked invalid in
+\* asynchronous_process_block WITHOUT a search of the orphan pool; its descendants that are already waiting there
+\* are only invalidated by the search that follows the next brokered block (or by expiry).
+RECURSIVE PoolRoot(_)
+PoolRoot(b) == IF parent[b] \in orphans THEN PoolRoot(parent[b]) ELSE b      \* for b \in orphans: the orphan next to its leader
+WaitsForNextBlock(b) == b \in orphans /\ ok[parent[PoolRoot(b)]] = "bad_nc" /\ parent[PoolRoot(b)] \in status
+\* strict form: must FAIL with exactly that scenario (self-test that the liveness check bites)
+EventuallyJudgedStrict == \A b \in Blocks : Ready(b) ~> Judged(b)
+\* never stuck pending / orphaned forever
+EventuallyJudged == \A b \in Blocks : Ready(b) ~> (Judged(b) \/ WaitsForNextBlock(b))
+\* deliveries are finite, so the pipeline comes to rest (and at rest TipHeaviestValid / OrphansConnected hold)
+EventuallyQuiescent == <>[]Quiescent
 =============================================================================
